@@ -49,7 +49,7 @@ def mk_direct(case, dtype=float):
     )
 
 
-ROUTES = ("direct", "direct", "direct", "slice", "copy", "dict", "iloc", "slice", "ctor", "aliases")
+ROUTES = ("direct", "direct", "direct", "slice", "copy", "dict", "iloc", "slice", "ctor", "aliases", "arraykind")
 
 # the documented spellings of the two senses (skcriteria.core.objectives); "min" / "max" are the builtins
 MAX_SPELLINGS = (1, max, np.max, np.nanmax, np.amax, "max", "maximize", "+", ">")
@@ -72,7 +72,7 @@ def mk_route(case):
                       [str(x) for x in case["alternatives"]], [str(x) for x in case["criteria"]]], sort_keys=True, default=str)
     r = ROUTES[zlib.crc32(key.encode()) % len(ROUTES)]
     if not all(isinstance(x, str) for x in list(case["alternatives"]) + list(case["criteria"])):
-        return r if r in ("ctor", "aliases", "copy", "dict") else "direct"   # any label kind
+        return r if r in ("ctor", "aliases", "copy", "dict", "arraykind") else "direct"   # any label kind
     key = json.dumps([case["matrix"], list(case["objectives"]), list(case["weights"]),
                       list(case["alternatives"]), list(case["criteria"])], sort_keys=True, default=str)
     r = ROUTES[zlib.crc32(key.encode()) % len(ROUTES)]
@@ -107,7 +107,25 @@ def mk(case, dtype=float):
         if case.get("dtypes"):
             df = df.astype({c: t for c, t in zip(crits, case["dtypes"])})
         return DecisionMatrix(df, pd.Series([int(o) for o in objs]), pd.Series([float(x) for x in wts]))
-    if route in ("aliases", "ctor"):
+    if route == "arraykind" and not case.get("dtypes"):
+        # the same numbers in another kind of container: Fortran-ordered, a strided read-only view of a larger array,
+        # nested Python lists, a DataFrame; weights as a tuple / strided view
+        k = zlib.crc32(repr(mtx.shape).encode() + repr(alts).encode()) % 4
+        if k == 0:
+            data = np.asfortranarray(mtx)
+        elif k == 1:
+            big = np.full((2 * n, 2 * m), -7.25)
+            big[::2, ::2] = mtx
+            data = big[::2, ::2]
+            data.setflags(write=False)
+        elif k == 2:
+            data = [[float(x) for x in r] for r in mtx.tolist()]
+        else:
+            import pandas as pd
+            data = pd.DataFrame(mtx, index=list(alts), columns=list(crits))
+        w2 = np.array([x for w in wts for x in (w, -1.0)])[::2] if k % 2 else tuple(float(x) for x in wts)
+        return mkdm(data, objectives=list(objs), weights=w2, alternatives=list(alts), criteria=list(crits))
+    if route in ("aliases", "ctor", "arraykind"):
         return mk_direct(case, dtype)
     if route == "copy":
         return mk_direct(case).copy()
